@@ -55,7 +55,7 @@ def main():
     try:
         assert sh("git -C /repo apply %s" % patch)[0] == 0
         for c in checks:
-            rc, out = sh("./check %s --tier quick" % c, cwd=VERIF)
+            rc, out = sh("./check %s --tier quick" % c, cwd=VERIF, env=dict(os.environ, VERIF_NO_EVIDENCE="1"))
             lines = [l for l in out.splitlines() if l.startswith("VIOLATION") or l.startswith("KNOWN")]
             detail = []
             for l in lines:
